@@ -239,6 +239,10 @@ pub struct Conn {
     pub faults: Faults,
     /// free-form label of the generator (statistics only, never read by an oracle)
     pub class: String,
+    /// id of the connection this one is compared with (same request under a benign transport /
+    /// with benign header values)
+    #[serde(default)]
+    pub twin: Option<usize>,
 }
 
 impl Conn {
@@ -251,6 +255,7 @@ impl Conn {
             client: ClientMode::Normal,
             faults: Faults::default(),
             class: class.to_string(),
+            twin: None,
         }
     }
     pub fn strict(&self) -> bool {
